@@ -207,6 +207,13 @@ class GeminiClient:
             # If TOFU is enabled, verify the certificate
             if self.tofu_db:
                 cert = protocol.get_peer_certificate()
+                if cert is None:
+                    # No certificate, or one that cannot be parsed: never treat
+                    # the peer as unpinned or trusted
+                    raise ConnectionError(
+                        f"Could not read the certificate presented by "
+                        f"{parsed.hostname}:{parsed.port}; refusing to continue"
+                    )
                 if cert:
                     is_valid, message = self.tofu_db.verify(
                         parsed.hostname, parsed.port, cert
@@ -408,6 +415,13 @@ class GeminiClient:
             # If TOFU is enabled, verify the certificate
             if self.tofu_db:
                 cert = protocol.get_peer_certificate()
+                if cert is None:
+                    # No certificate, or one that cannot be parsed: never treat
+                    # the peer as unpinned or trusted
+                    raise ConnectionError(
+                        f"Could not read the certificate presented by "
+                        f"{parsed.hostname}:{parsed.port}; refusing to continue"
+                    )
                 if cert:
                     is_valid, message = self.tofu_db.verify(
                         parsed.hostname, parsed.port, cert
